@@ -67,3 +67,14 @@ m = {
 }
 json.dump(m, open(os.path.join(HERE, "MANIFEST.json"), "w"), indent=1)
 print(f"MANIFEST.json: {len(checks)} checks, {len(na)} not claimed")
+
+# Plain-text rendering of known_findings.json (same content, one line per entry) for human readers.
+kf = json.load(open(os.path.join(HERE, "known_findings.json")))
+with open(os.path.join(HERE, "known_findings.txt"), "w") as f:
+    f.write("# generated from known_findings.json by mkmanifest.py; the checks read the JSON file\n")
+    for e in kf["findings"]:
+        if e.get("status") == "fixed":
+            f.write(e["text"] + "\n")
+    for e in kf["findings"]:
+        if e.get("status", "known") == "known":
+            f.write(f"known: property={e['property']} signature={e['signature']} :: {e['description']}\n")
